@@ -91,7 +91,7 @@ mod proofs {
     use crate::proto::verif_kani::{has_room, head9, mk_codec, snap, IoMode};
     use crate::verif_kani::noop_waker;
 
-    // @harness id=pp_new_take_shutdown props=C14,C08 kind=complete tier=quick fn=PingPong::new,PingPong::take_user_pings,PingPong::ping_shutdown
+    // @harness id=pp_new_take_shutdown props=C14,C15,C08 kind=complete tier=quick fn=PingPong::new,PingPong::take_user_pings,PingPong::ping_shutdown
     #[kani::proof]
     #[kani::stub(<crate::proto::Error as std::convert::From<std::io::Error>>::from, crate::proto::verif_kani::io_error_to_proto_error_stub)]
     fn pp_new_take_shutdown() {
@@ -116,7 +116,7 @@ mod proofs {
     }
 
     // recv_ping from any state (I-single-slot, I-shutdown), any PING frame.
-    // @harness id=pp_recv_ping props=C14,C08 kind=complete tier=quick fn=PingPong::recv_ping,UserPingsRx::receive_pong,ReceivedPing::is_shutdown
+    // @harness id=pp_recv_ping props=C14,C15,C07,C08 kind=complete tier=quick fn=PingPong::recv_ping,UserPingsRx::receive_pong,ReceivedPing::is_shutdown
     #[kani::proof]
     #[kani::unwind(10)]
     fn pp_recv_ping() {
@@ -175,7 +175,7 @@ mod proofs {
     }
 
     // Exactly once: the same ACK delivered twice completes a ping at most once.
-    // @harness id=pp_ack_consumed_once props=C14,C08 kind=complete tier=quick fn=PingPong::recv_ping
+    // @harness id=pp_ack_consumed_once props=C14,C15,C07,C08 kind=complete tier=quick fn=PingPong::recv_ping
     #[kani::proof]
     #[kani::unwind(10)]
     fn pp_ack_consumed_once() {
